@@ -701,7 +701,7 @@ class TemplateSource:
     rally.collect(parts=...
     """
 
-    collect_parts_re = re.compile(r"{{\s*rally\.collect\(parts=\"(.+?(?=\"))\"\)\s*}}")
+    collect_parts_re = re.compile(r"{{\s*rally\.collect\(parts=(?P<quote>[\"'])(?P<parts>.+?)(?P=quote)\)\s*}}")
 
     def __init__(self, base_path, template_file_name, source=io.FileSource, fileglobber=glob.glob):
         self.base_path = base_path
@@ -724,7 +724,7 @@ class TemplateSource:
         self.assembled_source = self.replace_includes(self.base_path, template_source)
 
     def replace_includes(self, base_path, track_fragment):
-        match = TemplateSource.collect_parts_re.findall(track_fragment)
+        match = [m.group("parts") for m in TemplateSource.collect_parts_re.finditer(track_fragment)]
         if match:
             # Construct replacement dict for matched captures
             repl = {}
@@ -734,8 +734,7 @@ class TemplateSource:
                 repl[glob_pattern] = self.replace_includes(base_path=io.dirname(full_glob_path), track_fragment=sub_source)
 
             def replstring(matchobj):
-                # matchobj.groups() is a tuple and first element contains the matched group id
-                return repl[matchobj.groups()[0]]
+                return repl[matchobj.group("parts")]
 
             return TemplateSource.collect_parts_re.sub(replstring, track_fragment)
         return track_fragment
